@@ -42,6 +42,7 @@ type XSheet struct {
 	DeclPos  int      // position in <sheets> (0: not declared, no relationship: an orphan part)
 	RelPos   int      // position in workbook.xml.rels
 	ZipPos   int      // position among the part members
+	Absent   bool     // declared and related as usual, but the part itself is not put into the archive
 }
 
 // XWorkbook is a whole XLSX package.
@@ -169,7 +170,9 @@ func (w *XWorkbook) Members() []Member {
 	}
 	ov := []Override{{"xl/workbook.xml", ctWb}}
 	for _, s := range w.Sheets {
-		ov = append(ov, Override{s.PartName, ctSheet})
+		if !s.Absent {
+			ov = append(ov, Override{s.PartName, ctSheet})
+		}
 	}
 	root := []Rel{{"rId1", relOfficeDoc, "xl/workbook.xml"}}
 	var tail []Member
@@ -197,7 +200,9 @@ func (w *XWorkbook) Members() []Member {
 	zs := append([]XSheet{}, w.Sheets...)
 	sort.SliceStable(zs, func(i, j int) bool { return zs[i].ZipPos < zs[j].ZipPos })
 	for _, s := range zs {
-		parts = append(parts, mem(s.PartName, SheetXML(s)))
+		if !s.Absent {
+			parts = append(parts, mem(s.PartName, SheetXML(s)))
+		}
 	}
 	return order(infra, parts, w.InfraFirst)
 }
